@@ -20,6 +20,10 @@ REPO = os.environ.get("VERIF_REPO", "/repo")
 COQ = os.path.join(VERIF, "coq")
 CACHE = os.environ.get("VERIF_CACHE", "/var/tmp/rime-verif")
 WORK = os.path.join(VERIF, "_work")
+if os.path.realpath(REPO) != "/repo":
+    # a run against another tree (mutation drill, seeded change) gets its own harness/driver build area, so that it
+    # can never hand a binary linked against the other tree to a concurrent run on /repo (or vice versa)
+    WORK = os.path.join(VERIF, "_work", "other-tree", os.path.basename(os.path.realpath(REPO)))
 NPROC = os.cpu_count() or 4
 
 FORBIDDEN = re.compile(
@@ -436,7 +440,7 @@ class Ctx:
             ev["notes"] = self.notes
         # evidence committed under /verif/evidence must come from /repo itself: a run against another tree
         # (VERIF_REPO=<scratch worktree>, used for mutation drills and seeded changes) writes elsewhere
-        edir = os.path.join(VERIF, "evidence") if os.path.realpath(REPO) == "/repo" else os.path.join(WORK, "evidence-other-tree")
+        edir = os.path.join(VERIF, "evidence") if os.path.realpath(REPO) == "/repo" else os.path.join(VERIF, "_work", "evidence-other-tree")
         p = os.path.join(edir, "%s.json" % self.pid)
         os.makedirs(os.path.dirname(p), exist_ok=True)
         with open(p, "w") as f:
